@@ -328,6 +328,25 @@ add("C01", "X-inline-steals-exported-comparison", "fixed",
            [{"in1": 0}, {"in1": -3}]), commit="a3ea559")
 
 
+add("C01", "X-const-false-cond-type", "fixed",
+    "Signal v1 = (0 < 0) : (\"signal-Y\", 0); Signal v2 = v1 + (\"stone\", 1); carried v2 on an implicit signal instead of signal-Y",
+    case01([Decl("Signal", "v1", Cond(Bin("<", Num(0), Num(0)), SigLit("signal-Y", Num(0)))),
+            Decl("Signal", "v2", Bin("+", Ref("v1"), SigLit("stone", Num(1))))], [{}]), commit="2139bd8")
+add("C01", "X-chain-copies-untyped-folded-value", "fixed",
+    "(in2 >= 0 && in1 >= 0) : ((\"signal-red\", 0) <= 0 : 1) output nothing: the decider copied signal-red while the folded 1 sat on an implicit signal",
+    case01([Decl("Signal", "in1", Num(0)), Decl("Signal", "in2", Num(0)),
+            Decl("Signal", "v1", Cond(Bin("&&", Bin(">=", Ref("in2"), Num(0)), Bin(">=", Ref("in1"), Num(0))),
+                                       Paren(Cond(Bin("<=", SigLit("signal-red", Num(0)), Num(0)), Num(1)))))],
+           [{"in1": 0, "in2": 0}, {"in1": -1, "in2": 0}]), commit="2139bd8")
+add("C01", "X-fold-true-copy-decider", "fixed",
+    "(v2 != -7) : v1 with v2 folded to a constant became the constant 1 instead of v1 (constant propagation ignored the copied output value)",
+    case01([Decl("Signal", "in1", Num(0)), Decl("Signal", "in2", Num(0)),
+            Decl("Signal", "v1", Bin("+", Proj(Ref("in2"), "steel-plate"), Num(3))),
+            Decl("Signal", "v2", Bin("AND", Proj(Num(100), "electronic-circuit"), Num(2))),
+            Decl("Signal", "v3", Bin(">>", Bin("*", Ref("in1"), Ref("in1")), Bin("AND", Paren(Cond(Bin("!=", Ref("v2"), Num(-7)), Ref("v1"))), Num(31))))],
+           [{"in1": 5, "in2": 0}, {"in1": 7, "in2": -2}]), commit="dd1c5f3")
+
+
 def main():
     import importlib
 
